@@ -153,7 +153,7 @@ def gen_float_residue(rng):
                 sim=dict(rule=rng.randrange(9), absence=[], auto_flag=False, max_time=40), task_order=order)
 
 
-def make_case(prop, seed, i, tier):
+def _make_case(prop, seed, i, tier):
     rng = rng_for(prop, seed, i)
     big = tier == "thorough"
     if i % 6 == 4:
@@ -331,3 +331,14 @@ def run_case(case):
             _state["checker"] = None
     res["nontrivial"] = res["counters"].get("C12.updates_after_cpl_change", 0) > 0
     return res
+
+
+def make_case(prop, seed, i, tier):
+    case = _make_case(prop, seed, i, tier)
+    # numbers off every decimal grid for 8 % of the cases (a random stream of its own: the other cases stay as they were)
+    import random
+    r2 = random.Random("offgrid/%s/%s/%d" % (prop, seed, i))
+    if r2.random() < 0.08 and isinstance(case.get("spec"), dict) and case.get("family") != "float-residue" and not case["spec"].get("scale", "").startswith("fs_chain"):
+        G.off_grid(r2, case["spec"])
+        case["family"] = (case.get("family") or "") + "+offgrid"
+    return case
